@@ -107,10 +107,14 @@ def make_param_index(all_params):
                     modifies=('index_list',))
         b_, a_ = z3.Int('inv_b'), z3.Int('inv_a')
         POS = position_fn(vc, num_s)
+        OFFP = vc.fn('column_offset_of_parameter', I, I)      # abbreviation: OFFP(b) = (pidx(b) + 1)*nS
+        vc.assume(z3.ForAll([b_], OFFP(b_) == (pidx(b_) + 1) * nS, patterns=[OFFP(b_)]))
+        if not all_params:
+            vc.assume(z3.ForAll([b_], OFFP(b_) == (tpix(b_) + 1) * nS, patterns=[tpix(b_)]))
 
         def entries(out, upto_b, upto_a):
             return z3.ForAll([b_, a_], z3.Implies(z3.And(b_ >= 0, a_ >= 0, a_ < num_s, z3.Or(b_ < upto_b, z3.And(b_ == upto_b, a_ < upto_a))),
-                                                  z3.And(POS(b_, a_) >= 0, POS(b_, a_) < to_num(out.length), z3.Select(out.arr, POS(b_, a_)) == six(a_) + (pidx(b_) + 1) * nS)), patterns=[POS(b_, a_)])
+                                                  z3.And(POS(b_, a_) >= 0, POS(b_, a_) < to_num(out.length), z3.Select(out.arr, POS(b_, a_)) == six(a_) + OFFP(b_))), patterns=[POS(b_, a_)])
         vc.loop(F, 0, lambda view, b: [('blocks of the first b free parameters are complete', z3.And(to_num(view['index_out'].length) == POS(b, 0), entries(view['index_out'], b, 0)))],
                 modifies=('index_out',), ghost=lambda it, view, b: st.__setitem__('b', b))
         vc.loop(F, 1, lambda view, a: [('the current block holds the first a named states',
